@@ -439,6 +439,23 @@ pub fn run_rf(seed: u64, n: usize, out: &str, salt: u64, extra: &[String]) {
         if n >= 30 && y.chance(0.13) {
             if let Some((pc, a, m)) = sector_case(&mut y, size_cap) { rf_case(&pc, a, m, model_limit, 60, &mut sink); continue; }
         }
+        // outlines in an EXACTLY diagonal vertical plane (|n.x| = |n.y|, n.z = 0: frame kind 3) refined with a tight ratio bound, so
+        // that restore_delaunay attempts flips there: the dominant-axis / tie decisions of is_convex and of the segment projections
+        // are exercised with refinement (seeded change C01-m5: is_convex by the sign of the dominant component, ties fall through).
+        // Own generator state, inserted between the cases of the old sequence
+        if n >= 30 && y.chance(0.10) {
+            let mut pc = rand_polycase(&mut y, 9, 1, size_cap, 100.0);
+            let fr3 = loop { let f = Frame::random(&mut y, 100.0); if f.kind == 3 { break f; } };
+            pc.outer = pc.outer2.iter().map(|p| fr3.at(p.0, p.1)).collect();
+            pc.holes = pc.holes2.iter().map(|h| h.iter().map(|p| fr3.at(p.0, p.1)).collect()).collect();
+            let parts: Vec<&str> = pc.note.split(':').collect();
+            pc.note = format!("{}:{}:{}:plane3", parts[0], parts[1], parts[2]);
+            pc.fr = fr3;
+            let area = { let a = area2(&pc.outer2).abs(); let h: f64 = pc.holes2.iter().map(|h| area2(h).abs()).sum(); a - h };
+            let k = (2.0f64).powf(y.range(1.0, 4.5));
+            rf_case(&pc, (area / k) as Float, y.range(0.9, 1.8) as Float, model_limit, 60, &mut sink);
+            continue;
+        }
         let nm = if r.chance(0.2) { 24 } else { 9 };
         let pc = rand_polycase(&mut r, nm, 2, size_cap, 100.0);
         let area = { let a = area2(&pc.outer2).abs(); let h: f64 = pc.holes2.iter().map(|h| area2(h).abs()).sum(); a - h };
